@@ -252,6 +252,7 @@ _V1_MAIN = _v1p("^VerifC07_v1_main_graceful$", dict(n=[1], J=[1], B=[1], K=[1]),
 _V1_PROMPT = _v1p("^VerifC07_v1_prompt$", dict(n=[1, 2, 3], B=[2]), dict(n=[1, 2, 3], B=[3]))
 _V1_ROUND = _v1p("^Verif(C05_saturated_round|C06_progress|C06_sole_priority)$", dict(n=[1, 2], Hmax=[3]), dict(n=[1, 2, 3], Hmax=[4]))
 _V1_RFAULT = _v1p("^VerifC15_round_fault$", dict(n=[1, 2], Hmax=[3]), dict(n=[1, 2], Hmax=[4]))
+_V1_RUNFAULT = _v1p("^VerifC15_v1_run_fault$", dict(n=[1, 2], H=[1, 2], J=[1]), dict(n=[1, 2], H=[1, 2, 3], J=[1, 2]))
 _V1_NEW = _v1p("^VerifC15_v1_new$", dict(n=[1, 2, 3]), dict(n=[1, 2, 3, 4]))
 _SCZ7 = [dict(msg="GracefulStop never completes", file="replay/v1/priority/c16_scenario_test.go", test="TestVerifScenarioC07ZeroShare")]
 _SCZ6 = [dict(msg="an item is delivered without any release", file="replay/v1/priority/c16_scenario_test.go", test="TestVerifScenarioC06ZeroShare")]
@@ -266,7 +267,7 @@ PROPS["C02"]["groups"] += [_V1_STEP_A, _V1_STEP_B, _V1_PRIOR, _V1_MAIN, _V1_SIMP
 PROPS["C05"]["groups"] += [_V1_ROUND, _V1_NEW]
 PROPS["C06"]["groups"] += [_V1_ROUND, _v1p("^VerifC06_progress_two_rounds$", dict(n=[2, 3], Hmax=[3]), dict(n=[2, 3, 4], Hmax=[4])), _V1_MAIN, _V1_Z6, _v1p("^VerifC01_step_calcTactic$", dict(n=[1, 2, 3]), dict(n=[1, 2, 3, 4]))]
 PROPS["C07"]["groups"] += [_V1_MAIN, _V1_PROMPT, _V1_Z7, _V1_SIMPLE, _v1p("^VerifC01_step_io$", dict(n=[1, 2, 3], J=[2]), dict(n=[1, 2, 3, 4], J=[3]))]
-PROPS["C15"]["groups"] += [_V1_STEP_A, _V1_STEP_B, _V1_MAIN, _V1_NEW, _V1_RFAULT]
+PROPS["C15"]["groups"] += [_V1_STEP_A, _V1_STEP_B, _V1_MAIN, _V1_NEW, _V1_RFAULT, _V1_RUNFAULT, _V1_SIMPLE]
 PROPS["C16"]["groups"] += [_V1_SIMPLE]
 for _p in ("C01", "C02", "C05", "C06", "C07", "C15"):
     PROPS[_p]["level_note"] += " v1: ported harness (same obligations), plus removed priorities with items in flight (foreign key in actual); v1 progress/termination obligations assume every share >= 1 (documented precondition), the zero-share case is a recorded known finding."
@@ -298,7 +299,7 @@ PROPS["C19"] = dict(
              dict(mod="v2", pkg="join", overlay="harness/v2/join"), dict(mod="v2", pkg="join/unite", overlay="harness/v2/unite"),
              dict(mod="v2", pkg="limit", overlay="harness/v2/limit"), dict(mod="v1", pkg="priority", overlay="harness/v1/priority"),
              dict(mod="v1", pkg="join", overlay="harness/v1/join")],
-    groups=[_G_LOOP1, _G_RUN, _G_RUNFAULT, _G_NEW, _G_SIMPLE, _V1_MAIN, _V1_NEW, _V1_SIMPLE,
+    groups=[_G_LOOP1, _G_RUN, _G_RUNFAULT, _G_NEW, _G_SIMPLE, _V1_MAIN, _V1_NEW, _V1_RUNFAULT, _V1_SIMPLE,
             _v1p("^VerifC16_v1prio_stop$", dict(n=[1], J=[1], B=[1], K=[1]), dict(n=[1], J=[1], B=[1], K=[1])),
             dict(mod="v2", pkg="join", overlay="harness/v2/join", harness="^VerifC03_join_", params=dict(quick=dict(JS=[2], M=[3], T=[2]), thorough=dict(JS=[2, 3], M=[4], T=[2]))),
             dict(mod="v2", pkg="join/unite", overlay="harness/v2/unite", harness="^VerifC03_unite_", params=dict(quick=dict(JS=[2], K=[2], T=[2]), thorough=dict(JS=[2, 3], K=[3], T=[2]))),
